@@ -578,6 +578,34 @@ func (x *Exec) isParamName(fn *ssa.Function, name string) bool {
 
 // loopWrites computes the cells and heap arrays assigned anywhere in the loop body.
 func (x *Exec) loopWrites(fr *Frame, st *State, body map[*ssa.BasicBlock]bool) (cells []*Cell, arrays map[string]*Sort) {
+	cells, arrays, points := x.loopWrites2(fr, st, body)
+	for _, p := range points {
+		arrays[p.name] = p.sort
+	}
+	return cells, arrays
+}
+
+// knownPtr: the address held by a captured variable or an escaping local of this frame.
+func (x *Exec) knownPtr(fr *Frame, v ssa.Value) (*Term, bool) {
+	switch a := v.(type) {
+	case *ssa.FreeVar:
+		for i, fv := range fr.fn.FreeVars {
+			if fv == a && i < len(fr.bind) {
+				if t, ok := fr.bind[i].(*Term); ok {
+					return t, true
+				}
+			}
+		}
+	case *ssa.Alloc:
+		if t, ok := fr.regs[a].(*Term); ok {
+			return t, true
+		}
+	}
+	return nil, false
+}
+
+// loopWrites2 additionally reports single cells (points) written through known addresses.
+func (x *Exec) loopWrites2(fr *Frame, st *State, body map[*ssa.BasicBlock]bool) (cells []*Cell, arrays map[string]*Sort, points []locRef) {
 	arrays = map[string]*Sort{}
 	seenCell := map[*Cell]bool{}
 	addType := func(prefix func(string) string, t types.Type, nested bool) {
@@ -627,6 +655,12 @@ func (x *Exec) loopWrites(fr *Frame, st *State, body map[*ssa.BasicBlock]bool) (
 					continue
 				}
 				pt := n.Addr.Type().Underlying().(*types.Pointer).Elem()
+				if addr, ok := x.knownPtr(fr, n.Addr); ok && !isPlainStruct(pt) {
+					for _, c := range comps(pt) {
+						points = append(points, locRef{ptrArrName(pt, c.suffix), ArrayS(IntS, c.sort), addr})
+					}
+					continue
+				}
 				switch a := n.Addr.(type) {
 				case *ssa.FieldAddr:
 					owner := namedOf(a.X.Type().Underlying().(*types.Pointer).Elem())
@@ -702,6 +736,15 @@ func (x *Exec) loopWrites(fr *Frame, st *State, body map[*ssa.BasicBlock]bool) (
 							sub[bb] = true
 						}
 						nf := &Frame{fn: f, regs: map[ssa.Value]Value{}}
+						if mc, ok := cc.Value.(*ssa.MakeClosure); ok {
+							for _, b := range mc.Bindings {
+								if v, has := fr.regs[b]; has {
+									nf.bind = append(nf.bind, v)
+								} else {
+									nf.bind = append(nf.bind, nil)
+								}
+							}
+						}
 						_, arr2 := x.loopWrites(nf, st, sub)
 						for k, v := range arr2 {
 							arrays[k] = v
@@ -721,7 +764,7 @@ func (x *Exec) loopWrites(fr *Frame, st *State, body map[*ssa.BasicBlock]bool) (
 			}
 		}
 	}
-	return cells, arrays
+	return cells, arrays, points
 }
 
 // staticModifies over-approximates a contract's modifies clause by whole arrays.
